@@ -31,8 +31,8 @@ Seq_9_300 == <<9, 300>>
 Seq_1_2 == <<1, 2>>
 Seq_1_2_3 == <<1, 2, 3>>
 Seq_1_1_1 == <<1, 1, 1>>
-CSizes_distinct == <<200, 210, 205, 230, 190, 240>>
-CSizes_ties == <<200, 210, 210, 200, 210, 200>>
+CSizes_distinct == <<400, 410, 405, 430, 390, 440>>
+CSizes_ties == <<400, 410, 410, 400, 410, 400>>
 CSizes_tiny == <<2, 3, 3, 2, 5, 1>>
 
 NNames == Len(NameLens)
@@ -51,10 +51,13 @@ SortedSeqs(E, m, minName) ==
   ELSE {<<>>} \cup UNION {{<<e>> \o rest : rest \in SortedSeqs(E, m - 1, e.n + 1)} :
                            e \in {x \in E : x.n >= minName}}
 
-RECURSIVE TreeSeqs(_, _, _)
-TreeSeqs(i, n, nb) ==
-  IF i > n THEN {<<>>}
-  ELSE {<<es>> \o rest : es \in SortedSeqs(EntrySet(i, nb), MaxEnt, 1), rest \in TreeSeqs(i + 1, n, nb)}
+\* all sequences of n pairwise distinct trees (identical trees would be one git object)
+RECURSIVE TreeSeqsFrom(_, _, _)
+TreeSeqsFrom(prefix, n, nb) ==
+  IF Len(prefix) = n THEN {prefix}
+  ELSE UNION {TreeSeqsFrom(Append(prefix, es), n, nb) :
+                es \in SortedSeqs(EntrySet(Len(prefix) + 1, nb), MaxEnt, 1) \ Range(prefix)}
+TreeSeqs(i, n, nb) == TreeSeqsFrom(<<>>, n, nb)
 
 RefRoot(o)  == [o |-> o, walk |-> TRUE, isref |-> TRUE, kind |-> "plain"]
 
@@ -73,9 +76,9 @@ RECURSIVE TagSeqs(_, _)
 TagSeqs(i, n) ==
   IF i > n THEN {<<>>}
   ELSE {<<tg>> \o rest :
-          tg \in {[size |-> 100 + i, tk |-> "c", to |-> 1], [size |-> 100 + i, tk |-> "t", to |-> 1],
-                  [size |-> 100 + i, tk |-> "b", to |-> 1]}
-                 \cup {[size |-> 100 + i, tk |-> "g", to |-> j] : j \in 1..(i-1)},
+          tg \in {[size |-> 150 + i, tk |-> "c", to |-> 1], [size |-> 150 + i, tk |-> "t", to |-> 1],
+                  [size |-> 150 + i, tk |-> "b", to |-> 1]}
+                 \cup {[size |-> 150 + i, tk |-> "g", to |-> j] : j \in 1..(i-1)},
           rest \in TagSeqs(i + 1, n)}
 
 \* objects nothing else points at: they must be roots for everything to be reachable
